@@ -4,6 +4,7 @@ import RootSim.Model.GenModel
 import RootSim.Model.Serial
 import RootSim.Model.Place
 import RootSim.Model.TimeWarp
+import RootSim.Model.TimeWarpG
 import Driver.Util
 /-!
 Driver modes `serial` and `par`: re-execution of a real ROOT-Sim run on the Lean models.
@@ -26,6 +27,9 @@ structure MsgRec where
   freed  : Bool := false
   known  : Bool := false   -- content bound (send / init seen)
   mseq   : Nat := 0        -- `m_seq` of a message received from another rank
+  /-- ghost creation step (TWG shadow): the abstract step number of the handler invocation that sent this message, i.e. the value
+  of `TWGState.now` at the `ext` line of that invocation (`LP_INIT` outputs and the `LP_INIT` message itself: 0) -/
+  cr     : Nat := 0
 
 /-- events the model expects next from a thread (in order) -/
 inductive Exp where
@@ -69,25 +73,56 @@ structure Thread where
   collected here (they are the allocator's choices, an input of `LPFull.stepFwd`), which is run when the `fwd` line arrives -/
   collect : Bool := false
   outs : Array Nat := #[]
+  /-- TWG shadow: the abstract step number (`TWGState.now` before the step) of the `exec` this thread is in the middle of; the
+  `send` lines that follow bind it to the ordinals of the messages the invocation creates (`MsgRec.cr`) -/
+  curStep : Nat := 0
 
 /-- Shadow state of the abstract global Time Warp machine (`Model/TimeWarp.lean`, theorems `Props/C01Glue.lean`) that the
 re-execution steps alongside the concrete run when the trace asks for it (`twshadow` line; single rank only): every
 `process_msg` of the real run is mapped to ONE abstract action (`exec`, `annihilate`, `antiRollback`), which must be enabled, and
 afterwards the abstract history of the LP must equal the concrete one (committed part ++ current past entries, as contents);
 every GVT value adopted by a thread must be a lower bound of the abstract pending messages and anti-messages — the hypothesis of
-`C01Glue.reachable_hist`. A failure is appended to the `end` line (the implementation prints none, so it shows as a divergence). -/
+`C01Glue.reachable_hist`. A failure is appended to the `end` line (the implementation prints none, so it shows as a divergence).
+The one known concrete step that is not an abstract action (`Sys.gapAt`) suspends the shadow instead (see `TwgShadow`). -/
 structure TwShadow where
   on : Bool := false
   st : Option TWState := none
   /-- per LP: contents of the history entries released by fossil collection so far -/
   dropped : Array (List Event) := #[]
   bad : Option String := none
+  /-- set when the one known non-refining concrete step is recognised (`Sys.gapAt`, `C01Refine.cmpOk_is_needed`): no check is made
+  (and nothing is claimed) from that line on; reported on the `end` line as ` TW-SHADOW-SUSPENDED ...` -/
+  suspended : Option String := none
+  steps : Nat := 0
+  gvtChecks : Nat := 0
+
+/-- Shadow state of the INSTRUMENTED abstract machine (`Model/TimeWarpG.lean`: ghost creation order; theorems under the runtime's
+real contract V2 in `Props/C01GlueV2.lean`; the stepped function is `TWG.step?`, `C01GlueV2.step_function_exact_V2`). Switched on by
+the trace line `twgshadow` (hrun key `tw=2`, or `tw=3` for both shadows; single rank only). Every message ordinal carries its
+creation step `MsgRec.cr`, so the abstract actions are called with the TAGGED message: `exec ℓ content cr`, `annihilate content cr`,
+`antiRollback ℓ position` (enabled only if an anti-message with the content AND creation step of that entry exists). Checks:
+the action is enabled; afterwards the abstract history of the LP equals the concrete one (committed ++ current past entries) as
+(content, creation step) pairs; every adopted GVT is a lower bound of the tagged pending messages and anti-messages (hypothesis of
+`C01GlueV2.reachable_hist_V2`). A failure is appended to the `end` line as ` TWG-SHADOW-FAILED ...`.
+
+The one known case in which a concrete `process_msg` is NOT an abstract action (`C01Refine.cmpOk_is_needed`: the straggler test
+reads the ANTI bit that the sender of an already processed message has set concurrently, so a same-time message that is before
+the flagged one by content is executed AFTER it) is recognised exactly (`gapAt`), the shadow is SUSPENDED from that line on
+(nothing after it is claimed) and ` TWG-SHADOW-SUSPENDED ...` is appended to the `end` line; `tools/props/runlib.py` counts these. -/
+structure TwgShadow where
+  on : Bool := false
+  st : Option TWGState := none
+  /-- per LP: (content, creation step) of the history entries released by fossil collection so far -/
+  dropped : Array (List (Event × Nat)) := #[]
+  bad : Option String := none
+  suspended : Option String := none
   steps : Nat := 0
   gvtChecks : Nat := 0
 
 structure Sys where
   tw : TwShadow := {}
-  P : Params := ⟨0, 1, 1, 1, 0, 0, false, false, false, 0⟩
+  twg : TwgShadow := {}
+  P : Params := Params.ofFields 0 1 1 1 0 0 0 0 0 0
   pool : Array MsgRec := #[]
   lps : Array (LPState GState) := #[]
   ths : Array Thread := #[]
@@ -138,6 +173,20 @@ def Sys.requeue (s : Sys) (m : Nat) : Sys := s.setRec m { s.mrec m with queued :
 
 /-! ### shadow of the abstract Time Warp machine -/
 
+/-- `C01Refine.cmpOk_is_needed` on a real trace: message `m` (no ANTI bit) is about to be executed by its LP; `kept` are the past
+entries the concrete straggler test keeps. The concrete backward scan stopped at the last kept entry `z`; if `z` carries its
+sender's ANTI bit, has the time stamp of `m` and `m` is before `z` by CONTENT, the scan stopped only because of the bit: the
+abstract `exec` would undo `z` (and possibly more). -/
+def Sys.gapAt (s : Sys) (m : Nat) (kept : List Nat) : Option Nat :=
+  match kept.getLast? with
+  | none => none
+  | some z =>
+    if (s.mrec z).flags % 2 = 1 && (s.ev z).t == (s.ev m).t && Event.before (s.ev m) (s.ev z) then some z else none
+
+def gapWhy (m z : Nat) : String :=
+  s!"ext {m}: processed message {z} already carries its sender's ANTI bit, message {m} (same time stamp, before it by content) " ++
+    "is executed after it (C01Refine.cmpOk_is_needed)"
+
 def Sys.twModel (s : Sys) : SimModel GState := simModel s.P (fun lp => s.rng0.getD lp ⟨0, 0, 0, 0⟩)
 
 def Sys.twFail (s : Sys) (why : String) : Sys :=
@@ -156,7 +205,7 @@ def Sys.twPastOk (s : Sys) (lp : Nat) : Bool :=
   | none => true
 
 def Sys.twAct (s : Sys) (a : TW.Action) (what : String) : Sys :=
-  if !s.tw.on || s.tw.bad.isSome then s else
+  if !s.tw.on || s.tw.bad.isSome || s.tw.suspended.isSome then s else
   match s.tw.st with
   | none => s
   | some t =>
@@ -165,8 +214,46 @@ def Sys.twAct (s : Sys) (a : TW.Action) (what : String) : Sys :=
     | some t' => { s with tw := { s.tw with st := some t', steps := s.tw.steps + 1 } }
 
 def Sys.twCheckPast (s : Sys) (lp : Nat) (what : String) : Sys :=
-  if !s.tw.on || s.tw.bad.isSome then s else
+  if !s.tw.on || s.tw.bad.isSome || s.tw.suspended.isSome then s else
   if s.twPastOk lp then s else s.twFail s!"{what}: abstract and concrete history of LP {lp} differ"
+
+/-! ### shadow of the instrumented machine (`TWG`) -/
+
+def Sys.twgLive (s : Sys) : Bool := s.twg.on && s.twg.bad.isNone && s.twg.suspended.isNone
+
+def Sys.twgFail (s : Sys) (why : String) : Sys :=
+  if s.twg.bad.isSome then s else { s with twg := { s.twg with bad := some why } }
+
+def Sys.twgStart (s : Sys) : Sys :=
+  if s.twg.on && s.twg.st.isNone && s.nNodes == 1 then
+    { s with twg := { s.twg with st := some (TWG.init s.twModel), dropped := Array.replicate s.P.nLps [] } }
+  else s
+
+/-- message ordinal → the tagged message of the instrumented machine -/
+def Sys.tagged (s : Sys) (m : Nat) : Event × Nat := (s.ev m, (s.mrec m).cr)
+
+/-- abstract history of `lp` = committed ++ current past entries, as (content, creation step) pairs, and the abstract processing
+steps are strictly increasing along the history -/
+def Sys.twgPastOk (s : Sys) (lp : Nat) : Bool :=
+  match s.twg.st with
+  | some t =>
+    let h := t.past lp
+    h.map (fun u => (u.ev, u.cr)) == (s.twg.dropped.getD lp []) ++ (pastMsgs (s.lp lp).hist).map s.tagged
+      && (h.zip (h.drop 1)).all (fun (a, b) => decide (a.pr < b.pr))
+  | none => true
+
+def Sys.twgAct (s : Sys) (a : TWG.Action) (what : String) : Sys :=
+  if !s.twgLive then s else
+  match s.twg.st with
+  | none => s
+  | some t =>
+    match TWG.step? s.twModel t a with
+    | none => s.twgFail s!"{what}: abstract action not enabled"
+    | some t' => { s with twg := { s.twg with st := some t', steps := s.twg.steps + 1 } }
+
+def Sys.twgCheckPast (s : Sys) (lp : Nat) (what : String) : Sys :=
+  if !s.twgLive then s else
+  if s.twgPastOk lp then s else s.twgFail s!"{what}: abstract and concrete history of LP {lp} differ"
 
 /-- the trace lines expected for an action of the proven step function `LPFull.step` (`dg` = digest of the LP state after the
 rollback of this step, printed by the `rbdone` line) -/
@@ -192,8 +279,8 @@ def actExp (lp : Nat) (dg : UInt64) : LPFull.Action → List Exp
 def applyExp (s : Sys) (r : Nat) (e : Exp) (arg : Nat) : Sys × String :=
   match e with
   | .send lp ev =>
-    let s := s.setRec arg { ev := ev, flags := 0, queued := 1, known := true }
     let th := s.th r
+    let s := s.setRec arg { ev := ev, flags := 0, queued := 1, known := true, cr := if th.collect then th.curStep else 0 }
     if th.collect then (s.setTh r { th with outs := th.outs.push arg }, renderSend arg lp ev) else
     -- process_lp_init
     let l := s.lp lp
@@ -226,6 +313,7 @@ def applyExp (s : Sys) (r : Nat) (e : Exp) (arg : Nat) : Sys × String :=
     let s := if s.termT.getD lp tNone = tNone then s.setTh r { th with exp := th.exp ++ [.termproc lp (s.ev m).t] } else s
     -- shadow: the abstract `exec` was applied when the message was extracted; now the concrete history has caught up
     let s := s.twCheckPast lp s!"fwd {m}"
+    let s := s.twgCheckPast lp s!"fwd {m}"
     (s, s!"fwd {m} lp={lp} idx={idx} st={hx (digest st1.lp.st)}")
   | .antid m f => (s, s!"antid {m} f={f}")
   | .free m =>
@@ -252,8 +340,8 @@ def applyExp (s : Sys) (r : Nat) (e : Exp) (arg : Nat) : Sys × String :=
     let s := s.setTh r { th with lpsToEnd := lte, maxT := if term then max t th.maxT else th.maxT }
     (s, s!"termproc lp={lp} t={newT} lte={lte}")
   | .rsend lp ev =>
-    let s := s.setRec arg { ev := ev, flags := 0, queued := 0, known := true }
     let th := s.th r
+    let s := s.setRec arg { ev := ev, flags := 0, queued := 0, known := true, cr := if th.collect then th.curStep else 0 }
     if th.collect then (s.setTh r { th with outs := th.outs.push arg }, renderSend arg lp ev |>.replace "send " "rsend ") else
     let l := s.lp lp
     (s.setLp lp { l with hist := l.hist ++ [.rsent arg] }, renderSend arg lp ev |>.replace "send " "rsend ")
@@ -304,22 +392,41 @@ def onExtract (s : Sys) (r m f : Nat) : Sys :=
       | _ => s) s
     -- shadow of the abstract machine (single rank): the whole `process_msg` is ONE abstract action, applied now
     let pastBefore := pastMsgs st0.lp.hist
+    let gap := if p.cont then s.gapAt m (pastMsgs p.st.lp.hist) else none
     let s := if !s.tw.on then s else
-      if p.cont then s.twAct (.exec lpI (s.ev m)) s!"ext {m} (exec)"
+      if p.cont then
+        match gap with
+        | some z => if s.tw.suspended.isSome then s else { s with tw := { s.tw with suspended := some (gapWhy m z) } }
+        | none => s.twAct (.exec lpI (s.ev m)) s!"ext {m} (exec)"
       else if f == 1 then s.twAct (.annihilate (s.ev m)) s!"ext {m} (annihilate)"
       else if f == 3 then
         match pastBefore.idxOf? m with
         | some i => s.twAct (.antiRollback lpI ((s.tw.dropped.getD lpI []).length + i)) s!"ext {m} (antiRollback)"
         | none => s.twFail s!"ext {m}: cancelled message is not a past entry"
       else s.twFail s!"ext {m}: flag word {f} has no abstract action (remote paths are not shadowed)"
+    -- shadow of the instrumented machine: the same mapping, with the tagged message (content + creation step)
+    let stepNo := match s.twg.st with | some t => t.now | none => 0
+    let s := if !s.twgLive then s else
+      let cr := (s.mrec m).cr
+      if p.cont then
+        match gap with
+        | some z => { s with twg := { s.twg with suspended := some (gapWhy m z) } }
+        | none => s.twgAct (.exec lpI (s.ev m) cr) s!"ext {m} (exec cr={cr})"
+      else if f == 1 then s.twgAct (.annihilate (s.ev m) cr) s!"ext {m} (annihilate cr={cr})"
+      else if f == 3 then
+        match pastBefore.idxOf? m with
+        | some i => s.twgAct (.antiRollback lpI ((s.twg.dropped.getD lpI []).length + i)) s!"ext {m} (antiRollback cr={cr})"
+        | none => s.twgFail s!"ext {m}: cancelled message is not a past entry"
+      else s.twgFail s!"ext {m}: flag word {f} has no abstract action (remote paths are not shadowed)"
     let s := s.setLp lpI p.st.lp
     let s := { s with earlyAntis := s.earlyAntis.set! lpI p.st.earlyAntis }
     let s := if p.cont then s else s.twCheckPast lpI s!"ext {m}"
+    let s := if p.cont then s else s.twgCheckPast lpI s!"ext {m}"
     -- the handler's outputs (contents, local/remote) are known now; their ordinals arrive with the send lines
     let fwdActs := if p.cont then (LPFull.stepFwd (hnd s lpI) s.isRemote (fun _ => 0) p.st m (s.ev m)).2 else []
     -- termination_on_msg_process returns early when termination_t != 0; whether it does is decided when the
     -- rollback's own termination update (if any) has been applied, i.e. at `fwd` time
-    s.setTh r { (s.th r) with collect := p.cont, outs := #[],
+    s.setTh r { (s.th r) with collect := p.cont, outs := #[], curStep := stepNo,
                               exp := (p.acts ++ fwdActs).flatMap (actExp lpI (digest p.st.lp.st)) }
 
 def insertSorted (e : Event) : List Event → List Event
@@ -393,13 +500,15 @@ def onDequeue (s : Sys) (r m : Nat) : Sys :=
     let s := { s with committed := s.committed.set! lpI (c0 + pm.length) }
     let s := if s.tw.on then
         { s with tw := { s.tw with dropped := s.tw.dropped.set! lpI ((s.tw.dropped.getD lpI []) ++ pm.map s.ev) } } else s
+    let s := if s.twg.on then
+        { s with twg := { s.twg with dropped := s.twg.dropped.set! lpI ((s.twg.dropped.getD lpI []) ++ pm.map s.tagged) } } else s
     (s.setLp lpI l').setTh r { t with exp := evs ++ [.fdone lpI n ok] }
 
 def parStep (s : Sys) (toks : List String) : Sys × String :=
   match toks with
   | "model" :: seed :: lps :: types :: fan :: thr :: spread :: rng :: mem :: t0 :: threads :: _ckpt :: tterm :: skew =>
-    let P : Params := ⟨UInt64.ofNat (nat! seed), nat! lps, nat! types, nat! fan, nat! thr, nat! spread,
-      nat! rng != 0, nat! mem != 0, nat! t0 != 0, nat! (skew.headD "0")⟩
+    let P : Params := Params.ofFields (nat! seed) (nat! lps) (nat! types) (nat! fan) (nat! thr) (nat! spread)
+      (nat! rng) (nat! mem) (nat! t0) (nat! (skew.headD "0"))
     let nNodes := match skew with | [_, n, _] => nat! n | _ => 1
     let nid := match skew with | [_, _, i] => nat! i | _ => 0
     ({ s with P := P, tterm := nat! tterm, nNodes := nNodes, nid := nid,
@@ -411,6 +520,7 @@ def parStep (s : Sys) (toks : List String) : Sys × String :=
               committed := Array.replicate (nat! lps) 0 }, "model ok")
   | ["period", _] => (s, "period")
   | ["twshadow"] => ({ s with tw := { s.tw with on := true } }, "twshadow ok")
+  | ["twgshadow"] => ({ s with twg := { s.twg with on := true } }, "twgshadow ok")
   | ["alloc", r, o] =>
     let r := nat! r; let o := nat! o
     let s := s.setRec o { ev := dummyEv }
@@ -446,6 +556,7 @@ def parStep (s : Sys) (toks : List String) : Sys × String :=
     if (s.mrec m).queued = 0 then (s, s!"deq-not-queued {m}") else
     let e := s.ev m
     let s := s.twStart
+    let s := s.twgStart
     let s := onDequeue s r m
     let below := decide (e.t < (s.th r).gvt)
     (s.setTh r { (s.th r) with cur := m }, s!"deq {m} lp={e.dest} tq={e.t} type={e.type}{if below then " BELOW-GVT" else ""}")
@@ -513,11 +624,17 @@ def parStep (s : Sys) (toks : List String) : Sys × String :=
         let last := lst.getD (lst.size - 1) 0
         ((lst.set! i last).pop, fr ++ [Exp.free m])
       else (lst, fr)) (t.atGvt, [])
-    let s := match s.tw.on, s.tw.st with
+    let s := match s.tw.on && s.tw.suspended.isNone, s.tw.st with
       | true, some tws =>
         let s := { s with tw := { s.tw with gvtChecks := s.tw.gvtChecks + 1 } }
         if tq ≥ tMax || TW.lowerBound tws tq then s
         else s.twFail s!"gvt {tq} told to thread {r} is not a lower bound of the abstract pending messages / anti-messages"
+      | _, _ => s
+    let s := match s.twgLive, s.twg.st with
+      | true, some tws =>
+        let s := { s with twg := { s.twg with gvtChecks := s.twg.gvtChecks + 1 } }
+        if tq ≥ tMax || TWG.lowerBound tws tq then s
+        else s.twgFail s!"gvt {tq} told to thread {r} is not a lower bound of the tagged abstract pending messages / anti-messages"
       | _, _ => s
     (s.setTh r { t with epoch := t.epoch + 1, gvt := tq, exp := exp ++ frees, atGvt := lst }, s!"gvt {r} tq={tq}")
   | ["vote", r, _, _] => consume s (nat! r) "vote" 0
@@ -556,17 +673,22 @@ def parStep (s : Sys) (toks : List String) : Sys × String :=
   | "hang" :: rest => (s, " ".intercalate ("hang" :: rest))
   | ["end"] =>
     let leaked := (List.range s.pool.size).filter (fun m => !(s.mrec m).freed)
-    let twv := match s.tw.on, s.tw.bad with
-      | true, some why => s!" TW-SHADOW-FAILED after {s.tw.steps} abstract steps: {why}"
-      | _, _ => ""
-    (s, s!"end allocs={s.allocs} frees={s.frees} leaked={leaked.length}{twv}")
+    let twv := match s.tw.on, s.tw.bad, s.tw.suspended with
+      | true, some why, _ => s!" TW-SHADOW-FAILED after {s.tw.steps} abstract steps: {why}"
+      | true, none, some why => s!" TW-SHADOW-SUSPENDED after {s.tw.steps} abstract steps: {why}"
+      | _, _, _ => ""
+    let twgv := match s.twg.on, s.twg.bad, s.twg.suspended with
+      | true, some why, _ => s!" TWG-SHADOW-FAILED after {s.twg.steps} abstract steps: {why}"
+      | true, none, some why => s!" TWG-SHADOW-SUSPENDED after {s.twg.steps} abstract steps: {why}"
+      | _, _, _ => ""
+    (s, s!"end allocs={s.allocs} frees={s.frees} leaked={leaked.length}{twv}{twgv}")
   | _ => (s, "bad-op")
 
 /-! ### serial mode: the serial runtime's control skeleton over a sorted event list -/
 
 
 structure SerialSys where
-  P : Params := ⟨0, 1, 1, 1, 0, 0, false, false, false, 0⟩
+  P : Params := Params.ofFields 0 1 1 1 0 0 0 0 0 0
   pending : List Event := []
   sts : Array GState := #[]
   termT : Array Bool := #[]
@@ -581,8 +703,8 @@ structure SerialSys where
 def serStep (s : SerialSys) (toks : List String) : SerialSys × String :=
   match toks with
   | "model" :: seed :: lps :: types :: fan :: thr :: spread :: rng :: mem :: t0 :: _threads :: _ckpt :: tterm :: skew =>
-    let P : Params := ⟨UInt64.ofNat (nat! seed), nat! lps, nat! types, nat! fan, nat! thr, nat! spread,
-      nat! rng != 0, nat! mem != 0, nat! t0 != 0, nat! (skew.headD "0")⟩
+    let P : Params := Params.ofFields (nat! seed) (nat! lps) (nat! types) (nat! fan) (nat! thr) (nat! spread)
+      (nat! rng) (nat! mem) (nat! t0) (nat! (skew.headD "0"))
     ({ s with P := P, sts := Array.replicate (nat! lps) {}, termT := Array.replicate (nat! lps) false,
               toTerm := nat! lps, tterm := nat! tterm }, "model ok")
   | ["period", p] => ({ s with period := nat! p }, "period")
@@ -639,7 +761,7 @@ Input: `model`, then every rank's `init` lines (seeded generator states), then p
 `finilp` lines. For each `commit` the model prints the content the sequential execution delivers to
 that LP at that position; the harness prints the content the implementation committed. -/
 structure SeqSys where
-  P : Params := ⟨0, 1, 1, 1, 0, 0, false, false, false, 0⟩
+  P : Params := Params.ofFields 0 1 1 1 0 0 0 0 0 0
   tterm : Nat := 0
   rng0 : Array Rng := #[]
   seq : Option (Array (Array Event) × Array GState) := none
@@ -653,8 +775,8 @@ def SeqSys.withSeq (s : SeqSys) : SeqSys :=
 def seqStep (s : SeqSys) (toks : List String) : SeqSys × String :=
   match toks with
   | "model" :: seed :: lps :: types :: fan :: thr :: spread :: rng :: mem :: t0 :: _threads :: _ckpt :: tterm :: skew =>
-    let P : Params := ⟨UInt64.ofNat (nat! seed), nat! lps, nat! types, nat! fan, nat! thr, nat! spread,
-      nat! rng != 0, nat! mem != 0, nat! t0 != 0, nat! (skew.headD "0")⟩
+    let P : Params := Params.ofFields (nat! seed) (nat! lps) (nat! types) (nat! fan) (nat! thr) (nat! spread)
+      (nat! rng) (nat! mem) (nat! t0) (nat! (skew.headD "0"))
     ({ s with P := P, tterm := nat! tterm, rng0 := Array.replicate (nat! lps) ⟨0, 0, 0, 0⟩,
               committed := Array.replicate (nat! lps) 0 }, "model ok")
   | ["init", _, lp, a, b, c, d] =>
@@ -693,7 +815,7 @@ GenModel instance with the timer decisions observed in the real run; prints the 
 `end`. Because the model's heap is the verbatim array algorithm, even the order of incomparable
 (equal-content, different destination) events must coincide with the implementation's. -/
 structure Serial2 where
-  P : Params := ⟨0, 1, 1, 1, 0, 0, false, false, false, 0⟩
+  P : Params := Params.ofFields 0 1 1 1 0 0 0 0 0 0
   tterm : Nat := 0
   period : Nat := 1000
   rng0 : Array Rng := #[]
@@ -720,8 +842,8 @@ where
 def serial2Step (s : Serial2) (toks : List String) : Serial2 × String :=
   match toks with
   | "model" :: seed :: lps :: types :: fan :: thr :: spread :: rng :: mem :: t0 :: _threads :: _ckpt :: tterm :: skew =>
-    let P : Params := ⟨UInt64.ofNat (nat! seed), nat! lps, nat! types, nat! fan, nat! thr, nat! spread,
-      nat! rng != 0, nat! mem != 0, nat! t0 != 0, nat! (skew.headD "0")⟩
+    let P : Params := Params.ofFields (nat! seed) (nat! lps) (nat! types) (nat! fan) (nat! thr) (nat! spread)
+      (nat! rng) (nat! mem) (nat! t0) (nat! (skew.headD "0"))
     ({ s with P := P, tterm := nat! tterm, rng0 := Array.replicate (nat! lps) ⟨0, 0, 0, 0⟩ }, "-")
   | ["period", p] => ({ s with period := nat! p }, "-")
   | ["sinit", lp, a, b, c, d] =>
